@@ -142,6 +142,7 @@ func main() {
 			per[o.Rule]++
 		}
 		for rule, fl := range floors[*prop] {
+			fl = effFloor(fl)
 			if per[rule] < fl {
 				b, _ := json.Marshal(Ob{Property: *prop, Rule: rule, Construct: "instance-count floor", Verdict: Undecided, Reason: fmt.Sprintf("%d < floor %d", per[rule], fl)})
 				fmt.Println(string(b))
